@@ -18,11 +18,14 @@ pub struct SSheet {
     pub cells: Vec<((u32, u32), SVal)>,
     /// 0 visible, 1 hidden, 2 very hidden
     pub state: u32,
+    /// a blank but formatted cell in the row above the first data row (xlsx styled empty <c/>, xlsb
+    /// BrtCellBlank inside the declared dimension, xls BLANK record): it is an empty cell
+    pub blank_above: bool,
 }
 
 impl SSheet {
     pub fn new(name: &str, cells: Vec<((u32, u32), SVal)>) -> SSheet {
-        SSheet { name: name.to_string(), cells, state: 0 }
+        SSheet { name: name.to_string(), cells, state: 0, blank_above: false }
     }
     fn sorted(&self) -> Vec<((u32, u32), SVal)> {
         let mut c = self.cells.clone();
@@ -46,6 +49,13 @@ pub fn build(format: &str, sheets: &[SSheet]) -> Vec<u8> {
 pub fn xlsx_tokens(s: &SSheet) -> Vec<Value> {
     let mut toks = Vec::new();
     let mut cur: Option<u32> = None;
+    if let (true, Some(((r0, c0), _))) = (s.blank_above, s.sorted().first().cloned()) {
+        if r0 >= 1 {
+            toks.push(json!({"k": "row", "r": r0 - 1}));
+            toks.push(json!({"k": "c", "r": [r0 - 1, c0], "s": 0}));
+            toks.push(json!({"k": "rowend"}));
+        }
+    }
     for ((r, c), v) in s.sorted() {
         if cur != Some(r) {
             if cur.is_some() {
@@ -85,6 +95,12 @@ fn build_xlsb_simple(sheets: &[SSheet]) -> Vec<u8> {
             r0 = r0.min(*r); r1 = r1.max(*r); c0 = c0.min(*c); c1 = c1.max(*c);
         }
         if cells.is_empty() { r0 = 0; c0 = 0; }
+        if s.blank_above && !cells.is_empty() && r0 >= 1 {
+            // the declared dimension starts at the blank row
+            body.push(xlsb::row_hdr(r0 - 1, c0, c1));
+            body.push(xlsb::cell_record((cells[0].0).1, 0, &xlsb::CellVal::Blank, &xlsb::PTG_INT_1));
+            r0 -= 1;
+        }
         for ((r, c), v) in cells {
             if cur != Some(r) {
                 body.push(xlsb::row_hdr(r, c0, c1));
@@ -111,6 +127,11 @@ pub fn xls_workbook(sheets: &[SSheet]) -> biff::Workbook {
     let mut wb = biff::Workbook::default();
     for s in sheets {
         let mut recs = Vec::new();
+        if let (true, Some(((r0, c0), _))) = (s.blank_above, s.sorted().first().cloned()) {
+            if r0 >= 1 {
+                recs.push(biff::Rec::Blank { r: (r0 - 1) as u16, c: c0 as u16, xf: 0 });
+            }
+        }
         for ((r, c), v) in s.sorted() {
             let (r, c) = (r as u16, c as u16);
             recs.push(match v {
